@@ -7,6 +7,7 @@ import (
 	"go/types"
 	"os"
 	"sort"
+	"strings"
 
 	"golang.org/x/tools/go/ssa"
 )
@@ -656,6 +657,19 @@ func (x *Exec) binop(in *ssa.BinOp, st *State) Value {
 	case token.MUL:
 		r := Mul(a, b)
 		x.overflow(in, r, st)
+		if isFloat(t) && !x.pure && !isNumLit(a) && !isNumLit(b) {
+			// sign rules for a product of two unknowns, stated as instances of the theorem: they
+			// spare the solver non-linear reasoning for "a non-negative score times a positive
+			// factor is non-negative" (only cvc5 found that by itself, in seconds)
+			z := Term{"0.0", SReal}
+			ra, rb := ToReal(a), ToReal(b)
+			x.assume(And(
+				Implies(And(Ge(ra, z), Ge(rb, z)), Ge(r, z)),
+				Implies(And(Le(ra, z), Le(rb, z)), Ge(r, z)),
+				Implies(And(Gt(ra, z), Gt(rb, z)), Gt(r, z)),
+				Implies(And(Ge(ra, z), Le(rb, z)), Le(r, z)),
+				Implies(And(Le(ra, z), Ge(rb, z)), Le(r, z))))
+		}
 		return r
 	case token.QUO:
 		if isFloat(t) {
@@ -713,6 +727,15 @@ func (x *Exec) binop(in *ssa.BinOp, st *State) Value {
 
 func (x *Exec) eq(a, b Term, t types.Type) Term {
 	return Eq(a, b)
+}
+
+func isNumLit(t Term) bool {
+	s := t.S
+	if s == "" {
+		return false
+	}
+	c := s[0]
+	return (c >= '0' && c <= '9') || strings.HasPrefix(s, "(- ") && len(s) > 3 && s[3] >= '0' && s[3] <= '9' || strings.HasPrefix(s, "(/ ")
 }
 
 // overflow emits a no-overflow obligation when the function opted in.
